@@ -9,7 +9,10 @@
 (* last architecture unconditionally: walk_archs(arch_list<Arch>),            *)
 (* xsimd_arch.hpp:199-204).  Properties: exactly one call; it goes to the     *)
 (* first reported-available architecture of the list when there is one; the   *)
-(* arguments are forwarded and the functor's result is returned.              *)
+(* arguments are forwarded - values AND value categories (args[3] is the      *)
+(* category of an argument object: const lvalue, lvalue, rvalue; the functor   *)
+(* reports the one its overload resolution bound) - and the functor's result   *)
+(* is returned.                                                                *)
 (***************************************************************************)
 EXTENDS Integers, Sequences, FiniteSets, TLC
 CONSTANTS ArchUniverse, MaxLen
@@ -37,7 +40,7 @@ DispatchCall == /\ walk.pos >= 1 /\ walk.called = <<>>
                 /\ UNCHANGED avail
 Lists == UNION {[1 .. k -> ArchUniverse] : k \in 1 .. MaxLen}
 Init == walk = Idle /\ avail \in [ArchUniverse -> BOOLEAN]
-Next == \/ \E l \in {x \in Lists : \A i, j \in 1 .. Len(x) : i # j => x[i] # x[j]} : DispatchStart(l, <<3, 5>>)
+Next == \/ \E l \in {x \in Lists : \A i, j \in 1 .. Len(x) : i # j => x[i] # x[j]} : DispatchStart(l, <<3, 5, 2>>)
         \/ DispatchProbe \/ DispatchCall
 \* ---- properties --------------------------------------------------------------------------------------
 AtMostOneCall == Len(walk.called) <= 1
